@@ -3,6 +3,7 @@ import copy
 import inspect
 import itertools
 import re
+import unicodedata
 
 import common
 from common import Outcome, LeanDriver
@@ -49,6 +50,11 @@ MACHINERY = ["context", "task", "call", "args", "kwargs", "self", "c", "ctx", "c
              "collection", "core", "parser", "hide", "echo", "warn", "pty", "body", "cls", "exit", "argv", "help", "list",
              "debug", "dry", "tasks", "called_as", "pre", "post", "default", "value", "kind", "flag", "positional",
              "optional", "iterable", "env", "command", "timeout", "e", "w", "p", "r", "d", "l", "V", "D", "F", "T", "h"]
+# non-ASCII Python identifiers (NFKC-normal, `str.isidentifier()`): first letter non-ASCII (so the short flag is too),
+# inner and outer underscores
+NONASCII = [unicodedata.normalize("NFKC", n) for n in
+            ["größe", "café_au_lait", "ñ", "данные", "名前", "_über", "été_", "naïve_x", "Ω", "é", "ñu", "x_ü", "_ß_"]]
+assert all(n.isidentifier() for n in NONASCII)
 RARE = ["a__b", "no_a", "no_foo_bar", "B", "_a_b_", "x", "no_ab"]
 # kind tag -> (python source of the default | None, model encoding)
 KINDS = {
@@ -322,6 +328,8 @@ def model_line(params, opts, argv=None):
 def modelable(params, opts):
     if any(k == "X" for _, k in params):
         return False
+    if not all(n.isascii() for n, _ in params):
+        return False  # the model's identifiers are ASCII (Char.isAlphanum): judged by the oracle only
     # positional=[''] cannot be told from positional=[] in the line protocol
     return all(x for k in ("optional", "iterable", "incrementable", "help") for x in opts.get(k, [])) and \
         all(x for x in (opts.get("positional") or []))
@@ -402,8 +410,8 @@ def impl_parse(impl, argv, parser=None):
 
 # ------------------------------------------------------------------ oracle (states the property on the real objects)
 
-LONG_RE = re.compile(r"[A-Za-z0-9]+(-+[A-Za-z0-9]+)*\Z")
-FLAG_RE = re.compile(r"(--[A-Za-z0-9]+(-+[A-Za-z0-9]+)*|-[A-Za-z0-9])\Z")
+LONG_RE = re.compile(r"[^\W_]+(-+[^\W_]+)*\Z")  # alphanumerics (of any script), dashes inside only
+FLAG_RE = re.compile(r"(--[^\W_]+(-+[^\W_]+)*|-[^\W_])\Z")
 
 
 def legit_error_causes(params, opts):
@@ -476,7 +484,7 @@ def oracle_signature(params, opts, impl):
         if len(extra) > 1:
             fails.append("more-than-one-short param=%s %r" % (n, extra))
         for f in extra:
-            if not (len(f) == 2 and f[0] == "-" and f[1].isascii() and f[1].isalnum()):
+            if not (len(f) == 2 and f[0] == "-" and f[1].isalnum()):
                 fails.append("short-not-single-alnum param=%s %r" % (n, f))
         spellings += mine
         # booleans
@@ -940,6 +948,11 @@ def random_case(rng):
     names = rng.sample(pool, k)
     if rng.random() < 0.03:
         names[rng.randrange(k)] = rng.choice(["_", "__"])  # blank CLI name (#29, now refused with ValueError)
+    if rng.random() < 0.08:
+        for i in rng.sample(range(k), rng.choice([1, 1, 2]) if k > 1 else 1):
+            m = rng.choice(NONASCII)
+            if m not in names:
+                names[i] = m
     if rng.random() < 0.15:
         for i in rng.sample(range(k), rng.choice([1, 1, 2]) if k > 1 else 1):
             m = rng.choice(MACHINERY)
@@ -1045,6 +1058,8 @@ def run(ctx):
             out.hist["history:program-run"] += 1
         if any(n in MACHINERY for n, _ in params):
             out.hist["names:machinery-identifier"] += 1
+        if not all(n.isascii() for n, _ in params):
+            out.hist["names:non-ascii-identifier"] += 1
         out.hist["history:5-generations"] += 1
         shp = c.get("shape") or []
         out.hist["shape:" + ("+".join(sorted(set(shp) - {"pk"})) or "plain")] += 1
